@@ -833,6 +833,16 @@ def run_real_scheduler(kind, inst, evs, t0):
     return out
 
 
+def _due_in_past(coq, t0):
+    """the instance's time argument denotes an instant before the subscription (absolute) / a negative delay"""
+    import re
+    m = re.search(r"Abs \(?(-?\d+)\)?", coq)
+    if m and int(m.group(1)) < t0:
+        return True
+    m = re.search(r"Rel \(?(-?\d+)\)?", coq)
+    return bool(m) and int(m.group(1)) < 0
+
+
 def closed_world(chk, pid, names, ncase=None):
     import lib
     import random
@@ -854,6 +864,16 @@ def closed_world(chk, pid, names, ncase=None):
                                     inst.get("from_end", ()), nonconforming=0.0,
                                     p_none=0.0 if inst.get("must_terminate") else 0.12)]
                 evs = [e for e in evs if e[0] > t0] if True else evs   # sent before the subscription: nobody listens
+                if _due_in_past(inst["coq"], t0):
+                    # a due time already in the PAST: the virtual-time schedulers sort the operator's timer BEFORE
+                    # source notifications still pending at the current instant, the simulator (source first at equal
+                    # instants) after them -- the statement fixes neither; keep one source event per instant
+                    seen_t, uniq = set(), []
+                    for e in evs:
+                        if e[0] not in seen_t:
+                            uniq.append(e)
+                            seen_t.add(e[0])
+                    evs = uniq
                 # subjects do not forward anything after their terminal: keep conforming sequences
                 out = run_real_scheduler(kind, inst, evs, t0)
                 n += 1
